@@ -3,7 +3,7 @@
    Assumptions beneath.  Model: Model/SortSearch.v (transcription of _coo/common.py); meaning:
    Spec/NpSort.v.  Element values are integers (NaN ordering and complex data are not modelled). *)
 From Coq Require Import ZArith List Bool Sorting.Sorted Sorting.Permutation.
-From Verif Require Import Py Shape COO COOP NpSort SortSearch SortSearchP.
+From Verif Require Import Py Shape COO COOP NpSort SortSearch SortSearchP SortSearchNdP S_sortsearch SortSearchSrc ShapeOps.
 Import ListNotations.
 Open Scope Z_scope.
 
@@ -99,8 +99,8 @@ Print Assumptions sorted_permutation_is_np_sort.
 
 (* ------------------------------------------------------------------ sparse.sort through its plumbing
    (normalize_axis, x[None,:] / squeeze(0) for 1-d input, moveaxis = transposition with re-sorting
-   of the entries, the two reshapes): 1-d and 2-d inputs, every valid axis.  For more than two
-   dimensions the plumbing is covered by correspondence only. *)
+   of the entries, the two reshapes): 1-d and 2-d inputs, every valid axis.  The general statement is sort_nd below; these
+   three are its readable row/column forms. *)
 
 (* 1-d input, axis 0 or -1: canonical 1-d result whose dense data is np.sort (reversed when
    descending) of the dense input; any extent, 0 and 1 included *)
@@ -135,6 +135,23 @@ Theorem sort_2d_first_axis :
       /\ forall k, 0 <= k < L -> col2 y R k = np_sort_dir desc (col2 (mkCOO [R; L] cs data fill) R k).
 Proof. exact sort_2d_first_axis_proof. Qed.
 Print Assumptions sort_2d_first_axis.
+
+(* ANY number of dimensions (>= 1), ANY valid axis (negative numbers included), both directions: the
+   result is canonical, has the input's shape and fill value, and the element at every position ix is
+   the element number ix[axis] of np.sort (reversed when descending) of the dense line through ix along
+   the axis (line_f (den x) sh a ix = [den x (ix with component a set to k) for k in range(sh[a])]) —
+   i.e. sparse.sort = NumPy's sort on the dense array, through normalize_axis, x[None,:]/squeeze(0),
+   moveaxis (a transposition that re-sorts the entries), both reshapes and the kernel.  The plumbing
+   steps are instances of agent-c08's generic remapping theorems (Proofs/ShapeOpsL.v). *)
+Theorem sort_nd :
+  forall (x : coo Z) (axis : Z) (desc : bool) (a : nat),
+    canonical Z x -> shape_ok (c_shape x) -> (1 <= length (c_shape x))%nat ->
+    NpSort.norm_axis (ndimZ x) axis = Some a ->
+    exists y, ss_sort x axis desc = Ok y /\ c_shape y = c_shape x /\ c_fill y = c_fill x /\ canonical Z y
+      /\ forall ix, in_range (c_shape x) ix ->
+           den y ix = nth (Z.to_nat (nth a ix 0)) (np_sort_dir desc (line_f (den x) (c_shape x) a ix)) 0.
+Proof. exact sort_nd_proof. Qed.
+Print Assumptions sort_nd.
 
 (* ------------------------------------------------------------------ _compute_minmax_args *)
 
@@ -172,9 +189,8 @@ Print Assumptions argminmax_first_unpruned_refuted.
 (* ------------------------------------------------------------------ argmax / argmin through the plumbing
    2-d input, first axis (0 or -2), keepdims or not: the result has NumPy's shape and holds, for
    every index k of the other axis, np.argmax / np.argmin of the dense column k (arg_emb kd k is
-   [0; k] with keepdims, [k] without).  The other paths of _arg_minmax_common (axis=None, the
-   last axis of a 2-d array, 1-d input, more than two dimensions) are covered by correspondence
-   only. *)
+   [0; k] with keepdims, [k] without).  The general statements are argminmax_nd, argminmax_1d and
+   argminmax_axis_none below. *)
 Theorem argminmax_2d_first_axis :
   forall (maxm kd : bool) (N M axis : Z) (cs : list idx) (data : list Z) (fill : Z),
     (axis = 0 \/ axis = -2) -> 0 < N -> 0 <= M ->
@@ -184,3 +200,82 @@ Theorem argminmax_2d_first_axis :
       /\ forall k, den z (arg_emb kd k) = np_argbest maxm (col2 (mkCOO [N; M] cs data fill) N k).
 Proof. exact argminmax_2d_first_axis_proof. Qed.
 Print Assumptions argminmax_2d_first_axis.
+
+(* ANY number of dimensions >= 2, ANY valid axis, keepdims or not (canonical pruned input, non-empty
+   reduced axis): with rs = the shape without the reduced axis, the result has shape rs (or rs with a 1
+   inserted at the axis when keepdims) and holds at every index o of the other axes np.argmax/np.argmin
+   of the dense line through o (ins a i o = o with i inserted at position a) *)
+Theorem argminmax_nd :
+  forall (maxm kd : bool) (x : coo Z) (axis : Z) (a : nat),
+    canonical Z x -> prunedb Z.eqb x = true -> shape_ok (c_shape x) -> (2 <= length (c_shape x))%nat ->
+    NpSort.norm_axis (ndimZ x) axis = Some a -> 0 < nth a (c_shape x) 0 ->
+    let rs := remove_nth (c_shape x) a in
+    exists z, ss_argminmax maxm x (Some axis) kd = Ok z
+      /\ c_shape z = (if kd then ins a 1 rs else rs) /\ canonical Z z
+      /\ forall o, in_range rs o ->
+           den z (if kd then ins a 0 o else o)
+           = np_argbest maxm (map (fun i => den x (ins a i o)) (zrange (nth a (c_shape x) 0))).
+Proof. exact argminmax_nd_ge2_proof. Qed.
+Print Assumptions argminmax_nd.
+
+(* 1-d input, axis 0 or -1: shape (1,) with keepdims, 0-d without *)
+Theorem argminmax_1d :
+  forall (maxm kd : bool) (n axis : Z) (cs : list idx) (data : list Z) (fill : Z),
+    (axis = 0 \/ axis = -1) -> 0 < n ->
+    canonical Z (mkCOO [n] cs data fill) -> prunedb Z.eqb (mkCOO [n] cs data fill) = true ->
+    exists z, ss_argminmax maxm (mkCOO [n] cs data fill) (Some axis) kd = Ok z
+      /\ c_shape z = (if kd then [1] else []) /\ canonical Z z
+      /\ den z (if kd then [0] else []) = np_argbest maxm (flat1 (mkCOO [n] cs data fill) n).
+Proof. exact argminmax_1d_proof. Qed.
+Print Assumptions argminmax_1d.
+
+(* axis=None, any number of dimensions >= 1, non-empty array: the index of the first extremum of the
+   row-major flattened array; shape (1,...,1) with keepdims, 0-d without *)
+Theorem argminmax_axis_none :
+  forall (maxm kd : bool) (x : coo Z),
+    canonical Z x -> prunedb Z.eqb x = true -> shape_ok (c_shape x) -> (1 <= length (c_shape x))%nat ->
+    0 < size (c_shape x) ->
+    let nd := length (c_shape x) in
+    exists z, ss_argminmax maxm x None kd = Ok z
+      /\ c_shape z = (if kd then ones nd else []) /\ canonical Z z
+      /\ den z (if kd then zeros nd else [])
+         = np_argbest maxm (map (fun i => den x (unravel (c_shape x) i)) (zrange (size (c_shape x)))).
+Proof. exact argminmax_none_proof. Qed.
+Print Assumptions argminmax_axis_none.
+
+(* an empty reduced axis, or an empty array with axis=None, raises ValueError (as NumPy does) *)
+Theorem argminmax_empty_rejected :
+  forall (maxm kd : bool) (x : coo Z),
+    (1 <= length (c_shape x))%nat ->
+    (size (c_shape x) = 0 -> ss_argminmax maxm x None kd = Raise ValueError)
+    /\ (forall axis a, NpSort.norm_axis (ndimZ x) axis = Some a -> nth a (c_shape x) 0 = 0 ->
+          ss_argminmax maxm x (Some axis) kd = Raise ValueError).
+Proof. exact argminmax_empty_rejected_proof. Qed.
+Print Assumptions argminmax_empty_rejected.
+
+(* ------------------------------------------------------------------ tie to the source text
+   Gen/S_sortsearch.v is regenerated from /repo on every run (tools/sitegen/sortsearch.py: the
+   normalised text of every line of each function); Model/SortSearchSrc.v is the text the model was
+   transcribed from.  Any edit of one of these functions makes these statements fail. *)
+(* the axis normalisation of the model (NpSort.norm_axis) is the fragment of _utils.normalize_axis
+   translated from the source on every run (ShapeOps.norm_axis over Gen/G_shapeops.v) *)
+Theorem norm_axis_generated :
+  forall nd a : Z, 0 <= nd ->
+    match NpSort.norm_axis nd a with
+    | Some k => ShapeOps.norm_axis nd a = Ok (Z.of_nat k)
+    | None => ShapeOps.norm_axis nd a = Raise ValueError
+    end.
+Proof. exact norm_axis_generated_proof. Qed.
+Print Assumptions norm_axis_generated.
+
+Theorem kernel_sources_pinned :
+  src_sort_coo = pinned_sort_coo /\ src_compute_minmax_args = pinned_compute_minmax_args
+  /\ src_unique_counts = pinned_unique_counts /\ src_unique_values = pinned_unique_values.
+Proof. exact kernel_sources_pinned_proof. Qed.
+Print Assumptions kernel_sources_pinned.
+
+Theorem wrapper_sources_pinned :
+  src_sort = pinned_sort /\ src_arg_minmax_common = pinned_arg_minmax_common
+  /\ src_argwhere = pinned_argwhere /\ src_where = pinned_where /\ src_COO_nonzero = pinned_COO_nonzero.
+Proof. exact wrapper_sources_pinned_proof. Qed.
+Print Assumptions wrapper_sources_pinned.
